@@ -210,8 +210,12 @@ def check(ctx):
     # C19.4 filename does not reach dumps
     for n in dumps_nodes:
         call = n.ast
+        # (the format *name* may be worked out from the file name -- it selects the formatter, it is not serialised)
+        dparams = model.method("Config", "dumps").positional_params
+        fmt_args = [a for i_, a in enumerate(call.args) if i_ + 1 < len(dparams) and dparams[i_ + 1] == "format"] + \
+            [k.value for k in call.keywords if k.arg == "format"]
         bad = [a for a in list(call.args) + [k.value for k in call.keywords]
-               if not isinstance(a, ast.Starred) and mentions_params(save, a, n, {fparam})]
+               if not isinstance(a, ast.Starred) and not any(a is fa for fa in fmt_args) and mentions_params(save, a, n, {fparam})]
         ctx.ob("flow.filename-not-serialised", save, call, not bad,
                "the destination path is not an argument of dumps" if not bad else
                "the destination path flows into dumps", node=n)
